@@ -178,6 +178,12 @@ pub fn last_panic() -> Option<String> {
     LAST_PANIC.with(|p| p.borrow().clone())
 }
 
+/// Marks the calling (helper) thread as running code under test for good: panics there are recorded,
+/// not printed.
+pub fn enter_guard() {
+    IN_GUARD.with(|g| g.set(g.get() + 1));
+}
+
 /// Run `f`, turning a panic into `Err(message at location)`.
 pub fn catch<T>(f: impl FnOnce() -> T) -> Result<T, String> {
     IN_GUARD.with(|g| g.set(g.get() + 1));
